@@ -6,6 +6,13 @@ import os
 VERIF = os.path.dirname(os.path.dirname(os.path.abspath(__file__)))
 
 CHECKS = {
+    "C17": dict(
+        category="model_checking",
+        technique="TLA+ spec FmtState (the formatter as a one-pass state machine over token and gap classes: bracket depth, macro modes, subprocess-statement flag, pending blank lines; two passes) checked by TLC for Skeleton, Idempotent, BlankCap over every token stream up to length 3-4; thousands of real sources assembled from statement templates x layouts formatted by the real formatter, output parsed by xonsh's own parser and compared with the input's tree, comments compared, output re-formatted; verdicts validated against FmtStateTrace by TLC; rejected inputs driven through the command-line entry point",
+        text="TLC shows on the model why one pass is enough: every decision depends on the token skeleton and on gaps the pass leaves alone, so the skeleton is re-emitted unchanged and a second pass is the identity. The binding then runs the real formatter on >5k (quick) / >40k (thorough) sources - every statement template (Python simple and compound statements, subprocess lines, alias/function/subprocess macros, multi-line strings and f-strings, comments) in every gap layout, alone and nested to depth 3 with indent units tab/2/4/8, blank-line runs, trailing blanks, CRLF, missing final newline - and requires parse(format(s)) == parse(s) with xonsh's own three-phase parser (string constants, subprocess arguments and macro bodies are constants of that tree), equal comment sequences, and format(format(s)) == format(s); tokenizer-rejected inputs must fail with a non-zero exit and leave the file untouched.",
+        design_ref="3/C17",
+        note="Trusts TLC and xonsh's own parser as the meaning oracle (names of the Python templates are bound, command words are not); tab characters between subprocess words, a tab right before `#`, and control characters inside a line are not explored (xonsh's own lexer is inconsistent there). Four formatter defects were repaired (fix: commits), two are known findings.",
+    ),
     "C18": dict(
         category="model_checking",
         technique="TLA+ spec Quote (the judgement Complete(name, opening style, typed, closing-quote-after) -> reads back; reference of which quoting styles can denote a name; named deviations keyed on name features) checked by TLC over every name up to length 3 of an 18-symbol alphabet; every name becomes a real file/directory, the real completer's insertion is spliced into the line and the line is executed with a recording alias; outcomes validated against QuoteTrace by TLC; completion-context analyser run on every cursor of hostile and completed lines",
